@@ -2335,6 +2335,13 @@ bus_transaction_capture_error_reply (BusTransaction  *transaction,
   if (connections->monitors == NULL)
     return TRUE;
 
+  /* A broadcast from the bus driver only gets its serial number when it is
+   * first sent out. An error reply to a message without a serial cannot
+   * be constructed (and corresponds to nothing that is ever sent), so
+   * there is nothing to show to the monitors. */
+  if (dbus_message_get_serial (in_reply_to) == 0)
+    return TRUE;
+
   reply = dbus_message_new_error (in_reply_to,
                                   error->name,
                                   error->message);
